@@ -102,7 +102,7 @@ def check(R, F, P, cfg):
             if a[0] == "bool" and getter_of(a[1])[0] == CM + "has_allocated_for_metadata":
                 has = t
         rv = strip(p.retval())
-        if has is True and not (rv[0] == "call" and rv[1] == WCM + "counter" and "get_metadata_unchecked" in fmt(rv)):
+        if has is True and not (rv[0] == "call" and rv[1] == WCM + "counter" and ("get_metadata_unchecked" in fmt(rv) or ".boxed_metadata" in fmt(rv)) and "self.inner" in fmt(rv)):   # the record of self's own box: through the unchecked accessor or the union field itself
             bad.append("record present -> %s" % fmt(rv)[:80])
         if has is False and rv != ("const", 0):
             bad.append("no record -> %s" % fmt(rv)[:80])
